@@ -333,6 +333,7 @@ type hgen struct {
 	r      *rand.Rand
 	seq    int
 	nested bool
+	plain  bool // documented input space only: no digits inside names, structural mutations only
 }
 
 var hWords = []string{"Alpha", "Beta", "Gamma", "Delta", "Item", "Reward", "Prop", "Hero", "Task", "Param", "Cost", "Lv", "Zone", "Kind", "Name", "ID", "Type", "Num", "Desc", "Attr"}
@@ -341,7 +342,11 @@ var hScalars = []string{"int32", "uint32", "int64", "uint64", "string", "bool", 
 func (g *hgen) word() string {
 	g.seq++
 	w := hWords[g.r.Intn(len(hWords))]
-	switch g.r.Intn(12) {
+	k := g.r.Intn(12)
+	if g.plain && k == 0 {
+		k = 2
+	}
+	switch k {
 	case 0:
 		return w + itoa(int64(g.seq)) // a digit in the name (may contain "1"/"2")
 	case 1:
@@ -561,7 +566,11 @@ func (g *hgen) mutate(cols []hcol) []hcol {
 			return s[:p] + s[q:]
 		}
 	}
-	switch g.r.Intn(8) {
+	kind := g.r.Intn(8)
+	if g.plain {
+		kind = []int{0, 1, 5, 6, 7}[g.r.Intn(5)]
+	}
+	switch kind {
 	case 0:
 		c.name = ""
 	case 1:
@@ -584,8 +593,8 @@ func (g *hgen) mutate(cols []hcol) []hcol {
 	return out
 }
 
-func genHeader(r *rand.Rand) (nested bool, names, types []string) {
-	g := &hgen{r: r, nested: r.Intn(4) == 0}
+func genHeader(r *rand.Rand, plain ...bool) (nested bool, names, types []string) {
+	g := &hgen{r: r, nested: r.Intn(4) == 0, plain: len(plain) > 0 && plain[0]}
 	cols := g.fields("", 2, 1+r.Intn(5), true)
 	for m := r.Intn(3); m > 0 && r.Intn(2) == 0; m-- {
 		cols = g.mutate(cols)
